@@ -35,7 +35,11 @@ User(cls, s, c)    == [t |-> "User", cls |-> cls, s |-> s, c |-> c]
 Poly(a, exps, c)   == [t |-> "Poly", a |-> a, exps |-> exps, c |-> c]
 Rat(a, b)          == [t |-> "Rat", a |-> a, b |-> b]
 
-DataclassUser == {"C17Pair", "C17Tagged", "C17Unit", "C17NoHash", "C17Names"}
+DataclassUser == {"C17Pair", "C17Tagged", "C17Unit", "C17NoHash", "C17Names",
+                  "C17Kw", "C17KwMid", "C17Init", "C17Dfl", "C17Kw2"}
+\* user dataclass nodes whose field order is not the order of the positional parameters of
+\* __init__ (keyword-only fields, fields __init__ does not take): c17_classes.py
+ReorderedUser == {"C17Kw", "C17KwMid", "C17Init", "C17Dfl", "C17Kw2"}
 LegacyUser    == {"C17Old", "C17OldLeaf", "C17OldVar"}
 
 \* children of every kind (the ones of Expr.tla plus the extensions)
@@ -98,17 +102,45 @@ xp1 == N("Sum", << vx, KI(1) >>)
 cond == Cmp(V("lhs"), "<=", KI(0))
 oldx == User("C17Old", << "o" >>, << vx >>)
 pairx == User("C17Pair", << "tg" >>, << vx, KI(1) >>)
-E(e) == [e |-> e, kind |-> "expr", vars |-> << >>, rest |-> << >>, np |-> FALSE, src |-> FALSE]
+\* mode: HOW the object is put together from its constructors - not part of what it is:
+\*   ""        every occurrence of a subexpression is an object of its own (a tree)
+\*   "shared"  equal subexpressions are ONE object used in several places (u = x + y; u*u + f(u)):
+\*             a DAG, the way programs build expressions; pickling preserves the sharing
+\*   "omit"    constructor arguments equal to the field defaults are left out
+Ent(e, kind, vars, rest, np, src, mode) ==
+    [e |-> e, kind |-> kind, vars |-> vars, rest |-> rest, np |-> np, src |-> src, mode |-> mode]
+E(e) == Ent(e, "expr", << >>, << >>, FALSE, FALSE, "")
+ESH(e) == Ent(e, "expr", << >>, << >>, FALSE, FALSE, "shared")
+EOM(e) == Ent(e, "expr", << >>, << >>, FALSE, FALSE, "omit")
 \* the expression obtained by PARSING the printed form of e ("built from source"): a list
 \* literal then is the parser's own hashable list class, so the entry can be hashed and keyed
-EP(e) == [e |-> e, kind |-> "expr", vars |-> << >>, rest |-> << >>, np |-> FALSE, src |-> TRUE]
+EP(e) == Ent(e, "expr", << >>, << >>, FALSE, TRUE, "")
 \* the same expression with its float constants given as numpy scalars (numpy.float64): equal to,
 \* and structurally the same as, the plain one - the persistent key normalises numpy scalars
-ENP(e) == [e |-> e, kind |-> "expr", vars |-> << >>, rest |-> << >>, np |-> TRUE, src |-> FALSE]
+ENP(e) == Ent(e, "expr", << >>, << >>, TRUE, FALSE, "")
 \* rest: the variables the expression uses beyond the listed ones, written down in
 \* lexicographic order (TLC cannot order strings; CatalogueSane checks it is a
 \* duplicate-free enumeration of exactly those variables)
-C(e, vars, rest) == [e |-> e, kind |-> "compiled", vars |-> vars, rest |-> rest, np |-> FALSE, src |-> FALSE]
+\* Names the evaluation context of a compiled expression supplies (documented:
+\* CompiledExpression.context, numpy when importable) are not arguments.
+C(e, vars, rest) == Ent(e, "compiled", vars, rest, FALSE, FALSE, "")
+CSH(e, vars, rest) == Ent(e, "compiled", vars, rest, FALSE, FALSE, "shared")
+CtxNames == {"math", "numpy"}
+mfn(n) == Look(V("math"), n)
+P2(k, v) == N("Product", << KI(k), v >>)
+\* (round 2) subexpressions that occur several times in one expression
+uxy == N("Sum", << vx, vy >>)
+ixt == N("Tup", << N("Sum", << V("i"), KI(1) >>), V("j") >>)
+qnd == B("Quotient", V("num"), V("den"))
+shA == N("Sum", << N("Product", << uxy, uxy >>), Call(V("f"), << uxy >>) >>)
+shB == N("Sum", << B("Sub", V("a"), ixt), B("Sub", V("b"), ixt) >>)
+shC == User("C17Pair", << "tg" >>, << qnd, User("C17Old", << "o" >>, << qnd >>) >>)
+shD == CallKw(V("g"), << uxy >>, << KwArg("k1", uxy), KwArg("k2", N("Product", << uxy, KI(2) >>)) >>)
+shE == IfE(N("LogAnd", << cond, U("LogNot", cond) >>), N("Min", << xp1, N("Max", << xp1, vy >>) >>), xp1)
+\* (round 2) user nodes whose fields are not the positional parameters
+tvk == User("C17Kw", << "acc", "global" >>, << KI(3) >>)
+kwl == User("C17Kw", << "acc", "local" >>, << KI(0) >>)
+ini == User("C17Init", << "nm" >>, << xp1 >>)
 
 Cat == <<
   (* 1*) E(vx),
@@ -199,7 +231,53 @@ Cat == <<
   (*74*) EP(Call(V("f"), << N("List", << vx, vy >>) >>)),
   (*75*) EP(N("Sum", << Call(V("f"), << N("List", << vx, KI(2) >>) >>), KI(1) >>)),
   (*76*) EP(xp1),                                                \* same structure as (3)
-  (*77*) EP(IfE(cond, Call(V("g"), << vx, N("Tup", << vy, vz >>) >>), B("Sub", V("arr"), KI(0))))
+  (*77*) EP(IfE(cond, Call(V("g"), << vx, N("Tup", << vy, vz >>) >>), B("Sub", V("arr"), KI(0)))),
+  \* ---- round 2 ----
+  \* user dataclass nodes with keyword-only fields, fields __init__ does not take, defaults
+  (*78*) E(tvk),                                                 \* C17Kw("acc", 3, tag="global")
+  (*79*) EOM(kwl),                                               \* C17Kw("acc", tag="local")
+  (*80*) E(kwl),                                                 \* the same, everything spelt out
+  (*81*) E(User("C17Kw", << "acc", "global" >>, << KI(0) >>)),   \* != (78)
+  (*82*) E(User("C17KwMid", << "sum", "i", "j" >>, << N("Sum", << N("Product", << vx, tvk >>), KI(1) >>) >>)),
+  (*83*) EOM(User("C17KwMid", << "max" >>, << KI(0) >>)),        \* C17KwMid("max")
+  (*84*) E(ini),
+  (*85*) E(User("C17Dfl", << "d", "t" >>, << vx >>)),
+  (*86*) EOM(User("C17Dfl", << "d", "dflt" >>, << KI(0) >>)),    \* C17Dfl("d")
+  (*87*) E(User("C17Kw2", << "a", "q" >>, << KI(2), vy >>)),
+  (*88*) EOM(User("C17Kw2", << "a", "" >>, << vx, KI(1) >>)),    \* C17Kw2("a", x)
+  (*89*) E(N("Sum", << tvk, ini, Call(V("f"), << tvk, kwl >>) >>)),
+  (*90*) E(User("C17Kw", << "acc", "" >>, << KI(3) >>)),         \* != (78): the keyword-only field alone
+  \* compiled expressions that call into the evaluation context and leave >= 3 variables
+  \* unlisted: the positional signature is "listed, then the others in lexicographic order" in
+  \* every process - seen through the values computed (weights 2,3,5,7,11 tell the arguments apart)
+  (*91*) C(N("Sum", << Call(mfn("fabs"), << N("Sum", << P2(2, V("alpha")), P2(-3, vx) >>) >>),
+                       P2(5, V("beta")), P2(7, vy) >>),
+           << >>, << "alpha", "beta", "x", "y" >>),
+  (*92*) C(N("Sum", << Call(mfn("copysign"), << N("Sum", << P2(3, V("omega")), V("phi") >>), V("kappa") >>),
+                       P2(2, V("amp")), P2(-5, V("offset")) >>),
+           << "amp" >>, << "kappa", "offset", "omega", "phi" >>),
+  (*93*) C(N("Sum", << Call(mfn("fabs"), << N("Sum", << V("p"), P2(-2, V("q")) >>) >>), P2(3, V("r")) >>),
+           << >>, << "p", "q", "r" >>),
+  (*94*) C(N("Sum", << P2(2, Call(mfn("fabs"), << V("delta") >>)), P2(3, V("gamma")), P2(5, vz),
+                       P2(7, V("w")), P2(-11, V("k")) >>),
+           << >>, << "delta", "gamma", "k", "w", "z" >>),
+  (*95*) C(N("Sum", << Call(mfn("fabs"), << N("Product", << V("t"), V("omega") >>) >>),
+                       Call(mfn("copysign"), << V("amp"), N("Sum", << V("phi"), P2(-2, V("kappa")) >>) >>),
+                       P2(3, V("offset")) >>),
+           << "t", "amp" >>, << "kappa", "offset", "omega", "phi" >>),
+  \* the context name is there but only ONE variable is unlisted / none is
+  (*96*) C(N("Sum", << Call(mfn("fabs"), << vx >>), P2(2, vy) >>), << "y" >>, << "x" >>),
+  \* one structure, three ways of putting the objects together: tree / DAG / parsed from text
+  (*97*) E(shA),   (*98*) ESH(shA),   (*99*) EP(shA),
+  (*100*) E(shB),  (*101*) ESH(shB),  (*102*) EP(shB),
+  (*103*) E(shC),  (*104*) ESH(shC),
+  (*105*) E(shD),  (*106*) ESH(shD),
+  (*107*) E(shE),  (*108*) ESH(shE),
+  (*109*) ESH(N("Sum", << P2(2, vx), P2(3, vx), vx >>)),          \* only leaves are shared
+  (*110*) E(N("Sum", << P2(2, vx), P2(3, vx), vx >>)),
+  \* a compiled expression over a DAG (its pickle is the expression + the listed variables)
+  (*111*) CSH(N("Sum", << N("Product", << uxy, uxy >>), P2(3, N("Product", << uxy, vz >>)) >>),
+              << "z" >>, << "x", "y" >>)
 >>
 NCat == Len(Cat)
 CatIds == 1..NCat
@@ -212,7 +290,8 @@ ObjPyEq(i, j) == /\ Cat[i].kind = Cat[j].kind
                  /\ PyEq(Cat[i].e, Cat[j].e)
 \* where an entry came from is not structure - except that a parsed list literal is another
 \* class than a Python list
-StructNorm(c) == [c EXCEPT !.np = FALSE, !.src = (c.src /\ "List" \in KindsIn(c.e))]
+\* (nor is the way the objects were put together: mode)
+StructNorm(c) == [c EXCEPT !.np = FALSE, !.src = (c.src /\ "List" \in KindsIn(c.e)), !.mode = ""]
 ObjSameStruct(i, j) == StructNorm(Cat[i]) = StructNorm(Cat[j])
 
 \* canonical representative (least index) of the == class / of the structure
@@ -224,8 +303,10 @@ Canon(i)  == CanonTab[i]
 StructOf(i) == StructTab[i]
 \* pytools' KeyBuilder (third party) keys numpy scalars by their own type: for it a numpy
 \* constant is a different structure; pymbolic's own walker normalises numpy scalars
+KBNorm(c) == [c EXCEPT !.mode = ""]
 StructKBTab == [i \in CatIds |->
-                CHOOSE j \in CatIds : Cat[j] = Cat[i] /\ \A k \in 1..(j - 1) : Cat[k] # Cat[i]]
+                CHOOSE j \in CatIds : KBNorm(Cat[j]) = KBNorm(Cat[i])
+                                       /\ \A k \in 1..(j - 1) : KBNorm(Cat[k]) # KBNorm(Cat[i])]
 StructFor(kind, i) == IF kind = "kb" THEN StructKBTab[i] ELSE StructTab[i]
 
 IsCompiled(i) == Cat[i].kind = "compiled"
@@ -233,13 +314,17 @@ IsHashable(i) == Cat[i].src \/ Hashable(Cat[i].e)
 
 \* argument names of the compiled function: the listed variables, then the
 \* unlisted ones "in lexicographic order" (documented)
-Unlisted(i) == VarNames(Cat[i].e) \ SeqToSet(Cat[i].vars)
+Unlisted(i) == (VarNames(Cat[i].e) \ CtxNames) \ SeqToSet(Cat[i].vars)
+UsesCtx(i) == VarNames(Cat[i].e) \cap CtxNames # {}
+\* what the context names stand for when the compiled function runs (Eval!ObjAttr knows "math";
+\* for integer arguments its fabs / copysign ARE math.fabs / math.copysign by value)
+CtxEnv(i) == [n \in (VarNames(Cat[i].e) \cap CtxNames) |-> [k |-> "obj", name |-> n]]
 ArgNames(i) == Cat[i].vars \o Cat[i].rest
 CompiledValue(i, args) ==
     LET names == ArgNames(i)
         env == [n \in SeqToSet(names) |->
                    IntV(args[CHOOSE k \in 1..Len(names) : names[k] = n])]
-    IN Eval(Cat[i].e, env)
+    IN Eval(Cat[i].e, env @@ CtxEnv(i))
 
 \* sanity of the catalogue and of PyEq itself (checked by TLC once, in C17_Gen)
 CatalogueSane ==
@@ -254,4 +339,10 @@ CatalogueSane ==
     /\ ObjPyEq(22, 23) /\ ~ObjSameStruct(22, 23) /\ ~ObjPyEq(22, 24)
     /\ ~ObjPyEq(16, 17) /\ ~ObjPyEq(26, 27) /\ ObjPyEq(41, 42) /\ ~ObjPyEq(41, 43)
     /\ ~ObjPyEq(63, 67) /\ ~ObjPyEq(50, 51) /\ ObjPyEq(59, 60) /\ ~ObjSameStruct(59, 60) /\ ~ObjPyEq(28, 29)
+    /\ ObjSameStruct(79, 80) /\ ~ObjPyEq(78, 81) /\ ~ObjPyEq(78, 90) /\ ~ObjPyEq(78, 80)
+    /\ ObjSameStruct(97, 98) /\ ObjSameStruct(97, 99) /\ ObjSameStruct(100, 101) /\ ObjSameStruct(100, 102)
+    /\ ObjSameStruct(103, 104) /\ ObjSameStruct(105, 106) /\ ObjSameStruct(107, 108) /\ ObjSameStruct(109, 110)
+    \* listed variables and context names are not among the unlisted ones
+    /\ \A i \in CatIds : SeqToSet(Cat[i].rest) \cap (CtxNames \cup SeqToSet(Cat[i].vars)) = {}
+    /\ Cardinality({i \in CatIds : UsesCtx(i) /\ Len(Cat[i].rest) >= 3}) >= 3
 =============================================================================
